@@ -735,6 +735,7 @@ static int do_replay(const std::string& path, bool verbose)
         return 0;
     }
     if (!o.ok) { printf("replay: child failed (status %d)\n%s\n", o.status, o.stderr_tail.c_str()); return 2; }
+    if (getenv("VSIM_DEBUG") && !o.stderr_tail.empty()) printf("--- stderr ---\n%s--- end stderr ---\n", o.stderr_tail.c_str());
     if (verbose)
     {
         printf("trace_hash=%lu steps=%ld nodes=%ld sim_ms=%.3f\n", (unsigned long)o.res.trace_hash, (long)o.res.steps, (long)o.res.nodes, double(o.res.sim_ns) / 1e6);
